@@ -59,6 +59,11 @@ def check(ctx, case):
 				d = metric.jaccarddist(X, Y)
 				j = metric.jaccard(X, Y)
 			except Exception as e:
+				if 'readonly' in (case.get('fa'), case.get('fb')) and isinstance(e, ValueError) and 'read-only' in str(e):
+					# observation (DESIGN 4.6): the Cython kernel takes writable buffers and refuses a read-only array loudly;
+					# no distance is reported, so C02 says nothing here - but if a distance IS reported it must be the right one
+					case['_refused'] = True
+					continue
 				return [], [f'jaccarddist raised {exc_kind(e)}: {e}']
 			lines.append(f'c02.dist {nats(x)} {nats(y)} {bits(d)} {bits(j)}')
 			if len(x) + len(y) <= 400:
